@@ -117,8 +117,19 @@ def scenarios(ctx, rounds):
             ctx.violation("%s: %s" % (op, out[0]), {"domain": "pause", "scenario": op, "rounds": rounds, "impl": out[0]})
 
 
+def watcher_stop(ctx):
+    """the disk watcher is the controller that pauses on low disk: stopping it while it holds the pipeline paused must return"""
+    rc, out, err = core.run_impl("diskwatch", [json.dumps({"op": "stopwhilelow"})], timeout=120)
+    ctx.case("watcher-stop-while-low", True)
+    ctx.count("scenario:watcher-stop:" + (out[0].split(" ")[0] if out else "none"))
+    if not out or not out[0].startswith("stopped pausedBefore=true"):
+        ctx.violation("stop while the disk watcher holds the pipeline paused: %s" % (out[0] if out else err[-200:]),
+                      {"domain": "diskwatch", "scenario": "stopwhilelow", "impl": out[0] if out else ""})
+
+
 def run(ctx):
     r = ctx.rng
+    watcher_stop(ctx)
     hs = corpus(ctx)
     if ctx.thorough():
         hs += list(histories(7, [0, 1, 2, 3]))
